@@ -869,6 +869,14 @@ class _Run(object):
                   m["etype"], m["code"], m["xid"], r.idx, r.cls), req=r.root, mtype="error")
               continue
             open_ = top_open
+            r = reqs[top_open[0]]
+            if m["xid"] != r.xid:
+              self.fail("response-xid", "an error quoting request #%d (%s, xid %d) carries xid %d in its own header" % (
+                  r.idx, r.cls, r.xid, m["xid"]), req=r.root, mtype="error")
+              r.answer = m
+              r.internal = "answered with a wrong xid"
+              i = max(i, r.idx + 1)
+              continue
           else:
             open_ = []
         refusable = [k for k in open_ if reqs[k].kind != "none"]
